@@ -1,4 +1,3 @@
-import PeptVerif.Model.Proto
-/-! driver for C01 (placeholder: replies bad-op to everything until the model is written) -/
-def step (_line : String) : String := "bad-op"
-def main : IO Unit := Proto.runDriver step
+import PeptVerif.Model.ParserProto
+/-! driver for C01: the parser / serializer model (ops documented in Model/ParserProto.lean) -/
+def main : IO Unit := Proto.runDriver Pept.Drv.step
